@@ -35,7 +35,8 @@ REQUIRED_BUCKETS = ["container:list", "container:numpy", "update-rejected-too-ol
                     "jump-beyond-capacity", "off-grid-update", "half-period-tie", "missing-value-written",
                     "gap-split", "eviction", "query-unaligned", "query-same-slot", "fill-value-zero", "query-index-negative",
                     "query-index-out-of-range", "at-index", "at-timestamp", "at-timestamp-unaligned", "at-gap-slot", "at-out-of-range",
-                    "moving-window", "dump-load-round-trip", "timestamps-in-mixed-time-zones"]
+                    "moving-window", "dump-load-round-trip", "timestamps-in-mixed-time-zones", "deep-copied",
+                    "copied-or-reloaded-while-empty", "timestamps-in-a-daylight-saving-zone"]
 REQUIRED_COUNTERS = ["updates_checked", "window_queries_checked", "at_queries_checked", "gap_invariant_checks"]
 ASSUMPTIONS = ["timestamps exact to the microsecond; values unique per write"]
 
@@ -80,8 +81,12 @@ def gen(rng: Any, tier: str, i: int) -> Any:
     return {"cap": cap, "period": period, "align_off": align_off, "container": rng.choice(["list", "numpy"]),
             "updates": ups, "qseed": rng.randrange(1 << 30),
             # after this many updates the buffer is dumped to disk and the re-loaded copy is used from then on
-            "reload_at": rng.choice([None, None, rng.randint(1, max(1, len(ups)))]),
-            "tz_min": rng.choice([0, 0, 0, 330, -210, 345])}
+            "reload_at": rng.choice([None, None, rng.randint(1, max(1, len(ups))), 0]),
+            "reload_how": rng.choice(["dump-load", "dump-load", "deepcopy"]),
+            "tz_min": rng.choice([0, 0, 0, 330, -210, 345]),
+            "dst": rng.choice([None, None, None, None, ["Europe/Berlin", "2024-03-31T01:00:00"], ["Europe/Berlin", "2024-10-27T01:00:00"],
+                               ["America/New_York", "2024-11-03T06:00:00"]]),
+            "dst_align_in_zone": rng.random() < 0.6, "dst_all_in_zone": rng.random() < 0.5}
 
 
 def _slot(t: F) -> int:
@@ -138,36 +143,57 @@ def check(case: dict[str, Any], rec: Any) -> None:
 
     cap, period = case["cap"], case["period"]
     per = timedelta(seconds=period)
-    align = E + timedelta(seconds=case["align_off"])
+    align = E + timedelta(seconds=case["align_off"])  # UTC: all harness arithmetic is done on this one
+    align_arg = align  # what the buffer is given (the same instant, possibly written in another zone)
     tz_min = case.get("tz_min", 0)
+    zone: Any = None
+    if case.get("dst"):
+        # a zone with daylight saving, the history straddling a clock change: aware datetimes denote instants, the
+        # wall clock they are written in must not matter
+        from zoneinfo import ZoneInfo
+
+        zname, change = case["dst"]
+        zone = ZoneInfo(zname)
+        align = datetime.fromisoformat(change).replace(tzinfo=timezone.utc) - 12 * per + timedelta(seconds=case["align_off"] % period)
+        align_arg = align.astimezone(zone) if case.get("dst_align_in_zone", True) else align
+        rec.bucket("timestamps-in-a-daylight-saving-zone")
+        tz_min = 0
     if tz_min:
         # the same alignment instant written in another time zone; update / query timestamps alternate between
         # that zone and UTC (aware datetimes denote instants)
         from datetime import timezone as _tz
 
-        align = align.astimezone(_tz(timedelta(minutes=tz_min)))
+        align_arg = align.astimezone(_tz(timedelta(minutes=tz_min)))
+        zone = _tz(timedelta(minutes=tz_min))
         rec.bucket("timestamps-in-mixed-time-zones")
     rec.bucket("container:" + case["container"])
     container = [0.0] * cap if case["container"] == "list" else np.empty(cap)
     if case["container"] == "numpy":
         container[:] = -777.0  # poison: np.empty garbage made recognisable
-    buf = OrderedRingBuffer(container, per, align)
+    buf = OrderedRingBuffer(container, per, align_arg)
     model = Model(cap)
     qr = random.Random(case["qseed"])
 
     def ts(t: float) -> datetime:
         r = align + timedelta(microseconds=round(t * period * 1e6))
-        if tz_min and round(t * 10) % 2 == 0:
-            from datetime import timezone as _tz
-
-            r = r.astimezone(_tz.utc)
+        if zone is not None and (round(t * 10) % 2 == 1 or case.get("dst_all_in_zone")):
+            r = r.astimezone(zone)
         return r
 
     accepted: list[tuple[float, Any]] = []
     interesting = False
     hist = []
     for n_up, (t, val) in enumerate(case["updates"]):
-        if case.get("reload_at") == n_up and n_up > 0:
+        if case.get("reload_at") == n_up and case.get("reload_how") == "deepcopy":
+            import copy
+
+            buf = copy.deepcopy(buf)  # a copy taken at any point of the life cycle (also of the empty buffer)
+            rec.bucket("deep-copied")
+            if n_up == 0:
+                rec.bucket("copied-or-reloaded-while-empty")
+        elif case.get("reload_at") == n_up:
+            if n_up == 0:
+                rec.bucket("copied-or-reloaded-while-empty")
             # serialization round trip (timeseries/_ringbuffer/serialization.py): the loaded buffer must be the same map
             import os
             import tempfile
@@ -264,10 +290,11 @@ def check(case: dict[str, Any], rec: Any) -> None:
             interesting = True
         o, nw = buf.oldest_timestamp, buf.newest_timestamp
         eo = min(valid) if valid else None
-        if (o is None) != (eo is None) or (o is not None and o != ts(eo)):
+        # (compared in UTC: an inter-zone == is always False for wall-clock times inside a repeated hour, PEP 495)
+        if (o is None) != (eo is None) or (o is not None and o.astimezone(timezone.utc) != ts(eo).astimezone(timezone.utc)):
             rec.violation("oldest_timestamp-differs", {**w0, "got": str(o), "expected_slot": eo})
             return
-        if valid and nw != ts(newest):
+        if valid and nw.astimezone(timezone.utc) != ts(newest).astimezone(timezone.utc):
             rec.violation("newest_timestamp-differs", {**w0, "got": str(nw), "expected_slot": newest})
             return
         if not valid:
@@ -345,10 +372,11 @@ def check(case: dict[str, Any], rec: Any) -> None:
     rec.observed({"accepted_updates": len(accepted), "final_model": sorted(model.valid.items())[:10],
                   "newest": model.newest})
     if accepted and model.valid:
-        _moving_window(case, accepted, rec, align, per)
+        _moving_window(case, accepted, rec, align, per, align_arg, zone)
 
 
-def _moving_window(case: dict[str, Any], accepted: list[Any], rec: Any, align: datetime, per: timedelta) -> None:
+def _moving_window(case: dict[str, Any], accepted: list[Any], rec: Any, align: datetime, per: timedelta,
+                   align_arg: datetime | None = None, zone: Any = None) -> None:
     """Same history through a real MovingWindow (fed via its channel); single-slot reads and slices."""
     from frequenz.channels import Broadcast
     from frequenz.quantities import Quantity
@@ -359,14 +387,17 @@ def _moving_window(case: dict[str, Any], accepted: list[Any], rec: Any, align: d
     qr = random.Random(case["qseed"] + 1)
     rec.bucket("moving-window")
 
+    def _z(d: datetime) -> datetime:
+        return d if zone is None else d.astimezone(zone)
+
     async def main() -> None:
         ch = Broadcast(name="mw")
         tx = ch.new_sender()
         model = Model(cap)
         async with MovingWindow(size=per * cap, resampled_data_recv=ch.new_receiver(limit=1000),
-                                input_sampling_period=per, align_to=align) as mw:
+                                input_sampling_period=per, align_to=align_arg or align) as mw:
             for t, v in accepted:
-                await tx.send(Sample(align + timedelta(microseconds=round(t * period * 1e6)),
+                await tx.send(Sample(_z(align + timedelta(microseconds=round(t * period * 1e6))),
                                      None if v is None else Quantity(v)))
                 await asyncio.sleep(0.001)
                 slot = _slot(F(str(t)))
@@ -411,7 +442,7 @@ def _moving_window(case: dict[str, Any], accepted: list[Any], rec: Any, align: d
                         rec.violation("at-index-returns-data-of-another-or-evicted-slot", {**wq, "expected": exp})
                 for _ in range(4):
                     k = qr.randint(eo - 2, newest + 2)
-                    key = align + k * per
+                    key = _z(align + k * per)
                     rec.count("at_queries_checked")
                     rec.bucket("at-timestamp")
                     try:
@@ -437,7 +468,7 @@ def _moving_window(case: dict[str, Any], accepted: list[Any], rec: Any, align: d
                 for _ in range(4):
                     k = qr.randint(eo - 1, newest + 1)
                     off = qr.choice([0.3, -0.3, 0.4, -0.4, 0.49, -0.49, 0.1, -0.1])
-                    key = align + timedelta(microseconds=round((k + off) * period * 1e6))
+                    key = _z(align + timedelta(microseconds=round((k + off) * period * 1e6)))
                     rec.count("at_queries_checked")
                     rec.bucket("at-timestamp-unaligned")
                     try:
